@@ -725,73 +725,124 @@ theorem rootsFromInts_dyn {f : PickleFile} (hw : PickleWF f) (e0 : Nat → Nat) 
       simp only [List.map_cons, List.cons_append]
       exact List.perm_middle
 
-/-- the release loop over the shelf, reordering possibly enabled -/
-theorem releaseLoop_dyn {f : PickleFile} (hw : PickleWF f) (e0 : Nat → Nat)
-    (cache : List (Nat × Int)) (hn : (cache.map (·.1)).Nodup) :
-    ∀ (ents : List (Nat × Int)) (prev : Option Int) (m : Mgr) (l : List Nat),
-      (∀ p ∈ ents, p ∈ cache) → ShelfN f m.tbl cache →
-      DynL e0 (ents.map (·.2.natAbs) ++ prev.toList.map Int.natAbs ++ l) m →
-      ∃ last r, releaseLoop false cache ents prev m = (.ok (), last, { m with ref := r }) ∧
-        DynL e0 (last.toList.map Int.natAbs ++ l) { m with ref := r } := by
+/-- a shelf entry is fetched (reordering possibly enabled): one more reference on its node -/
+theorem fetch_shelfD (e0 : Nat → Nat) (cache : List (Nat × Int)) (hn : (cache.map (·.1)).Nodup)
+    (k : Nat) (u0 : Int) (hm : (k, u0) ∈ cache) (hk1 : k ≠ 1) (m : Mgr) (L : List Nat)
+    (hg : DynL e0 L m) (hin : u0.natAbs ∈ L) :
+    ∃ r, nodeFromInt cache (k : Int) m = (.ok u0, { m with ref := r }) ∧
+      DynL e0 (u0.natAbs :: L) { m with ref := r } := by
+  have hlk := dmp_lookup_of_mem_nodup cache hn k u0 hm
+  have hmem : m.tbl.Mem u0 := (hg.heldX hin).mem hg.dyn.refs
+  obtain ⟨r, hw, g⟩ := wrapD e0 L m hg u0 hmem
+  refine ⟨r, ?_, g⟩
+  unfold DD.nodeFromInt
+  have a1 : ¬ ((k : Int) = -1) := by omega
+  have a2 : ¬ ((k : Int) = 1) := by omega
+  have a3 : ¬ ((k : Int) < 0) := by omega
+  have a4 : ((k : Int)).natAbs = k := by simp
+  simp only [a1, a2, a3, a4, if_false]
+  have hlook : (M.ofOption Err.key (cache.lookup k) : M Int) m = (.ok u0, m) := by rw [hlk]; rfl
+  refine (M.bind_eq_ok hlook).trans ?_
+  refine (M.bind_eq_ok hw).trans ?_
+  rfl
+
+theorem dropOptD (e0 : Nat → Nat) (prev : Option Int) (m : Mgr) (L : List Nat)
+    (hg : DynL e0 (prev.toList.map Int.natAbs ++ L) m) :
+    ∃ r, dropOpt prev m = { m with ref := r } ∧ DynL e0 L { m with ref := r } := by
+  cases prev with
+  | none => exact ⟨m.ref, rfl, by simpa using hg⟩
+  | some p =>
+    simp only [Option.toList, List.map_cons, List.map_nil, List.cons_append, List.nil_append] at hg
+    exact dropD e0 L m p hg
+
+/-- the loop that gives the shelf's references back, reordering possibly enabled -/
+theorem releaseFailed_dyn (e0 : Nat → Nat) (cache : List (Nat × Int)) (hn : (cache.map (·.1)).Nodup)
+    (h1 : ∀ p ∈ cache, p.1 ≠ 1) :
+    ∀ (ents : List (Nat × Int)) (prev : Option Int) (m : Mgr) (L : List Nat),
+      (∀ p ∈ ents, p ∈ cache) →
+      DynL e0 (prev.toList.map Int.natAbs ++ (shelfRefs ents ++ L)) m →
+      ∃ last r, releaseFailed cache ents prev m = (.ok (), last, { m with ref := r }) ∧
+        DynL e0 (last.toList.map Int.natAbs ++ L) { m with ref := r } := by
   intro ents
   induction ents with
   | nil =>
-    intro prev m l _ _ h
-    exact ⟨prev, m.ref, rfl, by simpa using h⟩
+    intro prev m L _ hg
+    exact ⟨prev, m.ref, rfl, by simpa [shelfRefs] using hg⟩
   | cons p rest ih =>
-    intro prev m l hsub hc h
+    intro prev m L hsub hg
     obtain ⟨k, u0⟩ := p
-    have hlk : cache.lookup k = some u0 := dmp_lookup_of_mem_nodup cache hn k u0 (hsub _ List.mem_cons_self)
-    obtain ⟨u0pos, u0mem, hk1, _, _⟩ := hc k u0 hlk
-    have hnat : ((k : Int)).natAbs = k := by simp
-    obtain ⟨u, r1, e1, g1, mu, su, _, hlu⟩ := nodeFromInt_dyn hw e0 _ m h cache hc (k : Int)
-      (Or.inr (by rw [hnat, hlk]; rfl))
-    have hu : u = u0 := by
-      have := hlu (by rw [hnat]; exact hk1)
-      rw [hnat, hlk] at this
-      have hneg : ¬ ((k : Int) < 0) := by omega
-      simp only [hneg, if_false, Option.some.injEq] at this
-      exact this.symm
-    subst hu
-    have g1' : DynL e0 (prev.toList.map Int.natAbs ++ (u.natAbs :: u.natAbs :: (rest.map (·.2.natAbs) ++ l)))
+    have hmem := hsub _ List.mem_cons_self
+    obtain ⟨r1, e1, g1⟩ := fetch_shelfD e0 cache hn k u0 hmem (h1 _ hmem) m _ hg
+      (by simp [shelfRefs])
+    have g1' : DynL e0 (prev.toList.map Int.natAbs ++ (u0.natAbs :: u0.natAbs :: (shelfRefs rest ++ L)))
         { m with ref := r1 } := by
       apply g1.perm
-      simp only [List.map_cons, List.cons_append, List.append_assoc]
-      refine List.Perm.symm (List.perm_append_comm.trans ?_)
-      simp only [List.cons_append, List.append_assoc]
-      exact List.Perm.cons _ (List.Perm.cons _ (List.Perm.append_left _ List.perm_append_comm))
-    obtain ⟨r2, ed, g2⟩ : ∃ r2, dropOpt prev { m with ref := r1 } = { m with ref := r2 } ∧
-        DynL e0 (u.natAbs :: u.natAbs :: (rest.map (·.2.natAbs) ++ l)) { m with ref := r2 } := by
-      cases prev with
-      | none => exact ⟨r1, rfl, by simpa using g1'⟩
-      | some p =>
-        simp only [Option.toList, List.map_cons, List.map_nil, List.cons_append, List.nil_append] at g1'
-        obtain ⟨r2, hd, hg⟩ := dropD e0 _ { m with ref := r1 } p g1'
-        exact ⟨r2, hd, hg⟩
-    obtain ⟨c, hc1, hc2⟩ := refOfD e0 _ { m with ref := r2 } g2 u u0mem
+      simp only [shelfRefs, List.map_cons, List.cons_append]
+      exact List.perm_middle.symm
+    obtain ⟨r2, ed, g2⟩ := dropOptD e0 prev { m with ref := r1 } _ g1'
+    obtain ⟨r3, hd3, g3⟩ := decrefD e0 _ { m with ref := r2 } u0 g2
+    obtain ⟨last, r4, e4, g4⟩ := ih (some u0) { m with ref := r3 } L
+      (fun p hp => hsub p (List.mem_cons_of_mem _ hp))
+      (by simpa using g3)
+    refine ⟨last, r4, ?_, g4⟩
+    rw [releaseFailed]
+    simp only [e1, ed, hd3]
+    exact e4
+
+/-- the loop of the checks at the end of the `try:` (`load_order=False`), reordering possibly
+enabled: the `ref < 2` assertion passes for every entry of a shelf that is held -/
+theorem checkLoop_dyn (e0 : Nat → Nat) (cache : List (Nat × Int)) (hn : (cache.map (·.1)).Nodup)
+    (h1 : ∀ p ∈ cache, p.1 ≠ 1) :
+    ∀ (ents : List (Nat × Int)) (prev : Option Int) (m : Mgr) (L : List Nat),
+      (∀ p ∈ ents, p ∈ cache) → (∀ p ∈ ents, p.2.natAbs ∈ L) →
+      DynL e0 (prev.toList.map Int.natAbs ++ L) m →
+      ∃ last r, checkLoop false cache ents prev m = (.ok (), last, { m with ref := r }) ∧
+        DynL e0 (last.toList.map Int.natAbs ++ L) { m with ref := r } := by
+  intro ents
+  induction ents with
+  | nil =>
+    intro prev m L _ _ hg
+    exact ⟨prev, m.ref, rfl, hg⟩
+  | cons p rest ih =>
+    intro prev m L hsub hheld hg
+    obtain ⟨k, u0⟩ := p
+    have hmem := hsub _ List.mem_cons_self
+    have hin : u0.natAbs ∈ L := hheld _ List.mem_cons_self
+    obtain ⟨r1, e1, g1⟩ := fetch_shelfD e0 cache hn k u0 hmem (h1 _ hmem) m _ hg
+      (List.mem_append_right _ hin)
+    have g1' : DynL e0 (prev.toList.map Int.natAbs ++ (u0.natAbs :: L)) { m with ref := r1 } := by
+      apply g1.perm
+      exact List.perm_middle.symm
+    obtain ⟨r2, ed, g2⟩ := dropOptD e0 prev { m with ref := r1 } _ g1'
+    have u0mem : ({ m with ref := r2 } : Mgr).tbl.Mem u0 :=
+      (g2.heldX List.mem_cons_self).mem g2.dyn.refs
+    obtain ⟨c, hc1, hc2⟩ := refOfD e0 _ { m with ref := r2 } g2 u0 u0mem
     have hc3 : 2 ≤ c := by
-      have : 2 ≤ extAdd e0 (u.natAbs :: u.natAbs :: (rest.map (·.2.natAbs) ++ l)) u.natAbs := by
+      have : 0 < L.count u0.natAbs := List.count_pos_iff.mpr hin
+      have : 2 ≤ extAdd e0 (u0.natAbs :: L) u0.natAbs := by
         simp [extAdd]; omega
       omega
-    obtain ⟨r3, hd3, g3⟩ := decrefD e0 _ { m with ref := r2 } u g2
-    have hbody : (refOf u >>= fun c => M.assert (decide (2 ≤ c)) >>= fun _ =>
-        if false = true then (M.assert (decide (3 ≤ c)) >>= fun _ => decref u) else decref u)
-        { m with ref := r2 } = (.ok (), { m with ref := r3 }) := by
+    have hbody : (refOf u0 >>= fun c => M.assert (decide (2 ≤ c)) >>= fun _ =>
+        if false = true then M.assert (decide (3 ≤ c)) else pure ())
+        { m with ref := r2 } = (.ok (), { m with ref := r2 }) := by
       refine (M.bind_eq_ok hc1).trans ?_
       refine (M.bind_eq_ok (assert_ok _ _ (by simpa using hc3))).trans ?_
-      simp only [Bool.false_eq_true, if_false]
-      exact hd3
-    have g3' : DynL e0 (rest.map (·.2.natAbs) ++ (some u).toList.map Int.natAbs ++ l) { m with ref := r3 } := by
-      apply g3.perm
-      simp only [Option.toList, List.map_cons, List.map_nil, List.append_assoc, List.cons_append, List.nil_append]
-      exact List.perm_middle.symm
-    obtain ⟨last, r4, e4, g4⟩ := ih (some u) { m with ref := r3 } l
-      (fun p hp => hsub p (List.mem_cons_of_mem _ hp)) hc g3'
+      rfl
+    obtain ⟨last, r4, e4, g4⟩ := ih (some u0) { m with ref := r2 } L
+      (fun p hp => hsub p (List.mem_cons_of_mem _ hp)) (fun p hp => hheld p (List.mem_cons_of_mem _ hp))
+      (by simpa using g2)
     refine ⟨last, r4, ?_, g4⟩
-    rw [releaseLoop]
+    rw [checkLoop]
     simp only [e1, ed]
     rw [hbody]
     exact e4
+
+/-- the keys of a shelf of regular nodes of the file are not the terminal's -/
+theorem shelfN_ids {f : PickleFile} {t : Tbl} {cache : List (Nat × Int)} (hn : (cache.map (·.1)).Nodup)
+    (hc : ShelfN f t cache) : ∀ p ∈ cache, p.1 ≠ 1 := by
+  intro p hp
+  have hlk := dmp_lookup_of_mem_nodup cache hn p.1 p.2 hp
+  exact (hc p.1 p.2 hlk).2.2.1
 
 
 /-! ### `load_json(load_order=False)`, reordering possibly enabled -/
@@ -878,9 +929,14 @@ theorem loadJson_dyn_spec (f : JsonFile) (hf : JsonWF f) (tgt : Mgr) (ext : Nat 
     apply L3.perm
     simp only [Option.toList, List.map_nil, List.append_nil]
     exact List.perm_append_comm
-  obtain ⟨last, r4, erl, L4⟩ := releaseLoop_dyn hwf ext added n2 added none { m2 with ref := r3 }
-    (us.map Int.natAbs) (fun _ h => h) c2 L3'
-  have erl : releaseLoop false added added none { m2 with ref := r3 } = (.ok (), last, { m2 with ref := r4 }) := erl
+  have hids := shelfN_ids n2 c2
+  obtain ⟨last0, r0, eck, L0⟩ := checkLoop_dyn ext added n2 hids added none { m2 with ref := r3 }
+    (shelfRefs added ++ us.map Int.natAbs) (fun _ h => h)
+    (fun p hp => List.mem_append_left _ (List.mem_map.mpr ⟨p, hp, rfl⟩))
+    (by simpa [shelfRefs] using L3')
+  obtain ⟨last, r4, erl, L4⟩ := releaseFailed_dyn ext added n2 hids added last0 { m2 with ref := r0 }
+    (us.map Int.natAbs) (fun _ h => h) L0
+  have erl : releaseFailed added added last0 { m2 with ref := r0 } = (.ok (), last, { m2 with ref := r4 }) := erl
   have L4 : DynL ext (last.toList.map Int.natAbs ++ us.map Int.natAbs) ({ m2 with ref := r4 } : Mgr) := L4
   obtain ⟨r5, ed5, L5⟩ : ∃ r5, dropOpt last { m2 with ref := r4 } = { m2 with ref := r5 } ∧
       DynL ext (us.map Int.natAbs) { m2 with ref := r5 } := by
@@ -900,8 +956,8 @@ theorem loadJson_dyn_spec (f : JsonFile) (hf : JsonWF f) (tgt : Mgr) (ext : Nat 
       ∀ σ, denN m2.tbl u σ = evalPickle f.toPickle k σ) f.roots hsome us f3
   refine ⟨f.roots.rebuild us, { m2 with ref := r5 }, ?_, by rw [hvals]; exact L5.dyn,
     hk5.predNodes L5.dyn.inv, ?_, ?_, ?_, ?_, ?_, ?_⟩
-  · rw [loadJson_false_eq, jsonTry_ok f false hsome tgt m1 m2 { m2 with ref := r3 } added us
-      (jsonHeader_false f tgt m1 ed) emk er]
+  · rw [loadJson_false_eq, jsonTry_ok f false hsome tgt m1 m2 { m2 with ref := r3 } { m2 with ref := r0 }
+      added us last0 (jsonHeader_false f tgt m1 ed) emk er eck]
     unfold jsonFinish
     simp only [erl, Bool.false_eq_true, if_false]
     have hfin : (liftE (Except.ok ()) >>= fun _ => dmpAssertConsistent >>= fun _ => (pure () : M Unit))
